@@ -70,11 +70,11 @@ const cliChars = "ACGTACGTN--"
 
 var cliRx = []rxRule{{`^s`, "t"}, {`\d+`, "N"}, {`(.)$`, "$1$1"}, {`_`, ""}, {`.*`, "same"}, {`^`, "p_"}, {`(`, "x"}, {`Seq(\d+)`, "New$1"}, {`_0001$`, ""}, {`[ab]`, "x"}}
 
-var cliCmds = []string{"rename-map", "rename-map", "rename-regexp", "rename-clean", "addid", "sort", "trim-name", "trim-auto", "subset", "subset", "dedup", "clean-seqs", "append", "append", "concat", "identical"}
+var cliCmds = []string{"rename-map", "rename-map", "rename-regexp", "rename-clean", "addid", "sort", "trim-name", "trim-auto", "subset", "subset", "dedup", "clean-seqs", "append", "append", "concat", "identical", "reformat-clean"}
 
 // commands that accept --unaligned (sequence sets); the others need an alignment
 var cliUnaligned = map[string]bool{"rename-map": true, "rename-regexp": true, "rename-clean": true, "addid": true, "sort": true,
-	"trim-name": true, "trim-auto": true, "subset": true, "dedup": true}
+	"trim-name": true, "trim-auto": true, "subset": true, "dedup": true, "reformat-clean": true}
 
 func genCLI(t *rapid.T) cliCase {
 	var c cliCase
@@ -154,6 +154,8 @@ func drawCLICmd(t *rapid.T) cliCmd {
 		o.S = []string{rapid.SampledFrom([]string{"", "", "GAP", "-", "N", "A", "a", "t"}).Draw(t, "char")}
 	case "identical":
 		o.N = []int{in(0, 4, "mode"), in(0, 7, "row"), in(0, 11, "site")}
+	case "reformat-clean":
+		o.N = []int{in(0, 3, "format")}
 	case "append", "concat":
 		k := in(1, 3, "k")
 		l := in(1, 6, "len")
@@ -266,6 +268,7 @@ func checkCLI(dir string, c cliCase) (o pbt.Outcome, err error) {
 		var wantMap [][2]string // expected content (as a set)
 		structural := false     // names judged on structure, adopted from the output
 		var logFile string
+		reformatTo := "" // the command prints another format than FASTA: converted back before the comparison
 		var wantGroups [][]string
 		out := m.clone()
 		switch cmd.Cmd {
@@ -347,6 +350,18 @@ func checkCLI(dir string, c cliCase) (o pbt.Outcome, err error) {
 				wantMap = append(wantMap, [2]string{r.Name, to})
 				out.rows[i].Name = to
 			}
+			renamed = true
+		case "reformat-clean":
+			// goalign reformat <format> --clean-names: the CleanNames rule applied before writing, for every
+			// reformat sub-command whose output can be read back (paml and tnt have no reader)
+			reformatTo = []string{"fasta", "phylip", "nexus", "clustal"}[mod(cmd.n(0), 4)]
+			for i, r := range out.rows {
+				out.rows[i].Name = cleanName(r.Name)
+			}
+			if c.Unaligned || out.collided() {
+				reformatTo = "fasta" // sequence sets are FASTA only; merged names are not representable elsewhere
+			}
+			args = []string{"reformat", reformatTo, "-i", in, "--clean-names"}
 			renamed = true
 		case "addid":
 			args = []string{"addid", "-i", in, "-n", cmd.s(0)}
@@ -688,7 +703,7 @@ func checkCLI(dir string, c cliCase) (o pbt.Outcome, err error) {
 		}
 		if c.Unaligned {
 			at := 1
-			if args[0] == "trim" {
+			if args[0] == "trim" || args[0] == "reformat" {
 				at = 2
 			}
 			args = append(append(append([]string{}, args[:at]...), "--unaligned"), args[at:]...)
@@ -746,6 +761,18 @@ func checkCLI(dir string, c cliCase) (o pbt.Outcome, err error) {
 				break
 			}
 			return o, fmt.Errorf("%s: exit status %d, stderr %q", what, r.Exit, r.Stderr)
+		}
+		if reformatTo != "" && reformatTo != "fasta" {
+			flag := map[string]string{"phylip": "-p", "nexus": "-x", "clustal": "-u"}[reformatTo]
+			tmp := cli.TempFile(dir, "."+reformatTo, r.Stdout)
+			conv := cli.RunIn(dir, "", "reformat", "fasta", flag, "-i", tmp)
+			if conv.Exit != 0 {
+				return o, fmt.Errorf("%s: the %s output cannot be read back (%q): %q", what, reformatTo, conv.Stderr, r.Stdout)
+			}
+			r.Stdout = conv.Stdout
+			o.Class("cli-reformat-clean=%s", reformatTo)
+		} else if reformatTo == "fasta" {
+			o.Class("cli-reformat-clean=fasta")
 		}
 		got, perr := cli.ParseFasta(r.Stdout)
 		if perr != nil {
